@@ -175,6 +175,14 @@ def scan():
         for m in re.finditer(r"const\s+struct\s+format_loader\s+libxmp_loader_(\w+)\s*=\s*\{([^}]*)\}", raw):
             for nm in re.findall(r"\"((?:[^\"\\]|\\.)*)\"", m.group(2)):
                 formats[nm] = (os.path.join("loaders", fn), m.group(1))
+    # ProWizard sub-formats (struct pw_format): the test entry points report these names as the type
+    pdir = os.path.join(ldir, "prowizard")
+    for fn in sorted(os.listdir(pdir)):
+        if not fn.endswith(".c"):
+            continue
+        raw = open(os.path.join(pdir, fn), errors="replace").read()
+        for m in re.finditer(r"const\s+struct\s+pw_format\s+(pw_\w+)\s*=\s*\{\s*\"((?:[^\"\\]|\\.)*)\"", raw):
+            formats.setdefault(m.group(2), (os.path.join("loaders", "prowizard", fn), m.group(1)))
     # companion-file loaders: files defining a function that opens files, plus files calling such a
     # function (one level: mmd_common.c helpers used by mmd1_load.c / mmd3_load.c)
     comp_names = {name for (_, name) in comp_funcs}
